@@ -444,6 +444,12 @@ struct RogueNotif {
     handle: Handle,
     /// bytes the rogue may still put on the wire (keeps runs over 1-byte carriers inside the budget)
     byte_budget: usize,
+    /// the rogue's own negotiation starts are logged like a user's open requests, so that the
+    /// oracle knows when "no negotiation in progress" does not hold towards it
+    log: Log,
+    seed: u64,
+    total: usize,
+    me: usize,
 }
 
 fn uvarint(mut n: u64) -> Vec<u8> {
@@ -476,7 +482,9 @@ impl UserProtocol for RogueNotif {
         while let Some(ev) = futures::StreamExt::next(&mut service).await {
             match ev {
                 TransportEvent::ConnectionEstablished { peer, .. } if self.behaviour == "initiate_silent" => {
-                    let _ = service.open_substream(peer);
+                    if service.open_substream(peer).is_ok() {
+                        push(&self.log, &self.handle, self.me, K::COpen { peer: peer_index(self.seed, self.total, &peer), res: "ok".into() });
+                    }
                 }
                 TransportEvent::SubstreamOpened { mut substream, peer, direction, .. } => {
                     self.handle.probe(&format!("rogue-notif:{}", self.behaviour));
@@ -496,8 +504,8 @@ impl UserProtocol for RogueNotif {
                                 _ => {
                                     let _ = substream.write_all(&hs).await;
                                     let _ = substream.flush().await;
-                                    if full {
-                                        let _ = service.open_substream(peer);
+                                    if full && service.open_substream(peer).is_ok() {
+                                        push(&self.log, &self.handle, self.me, K::COpen { peer: peer_index(self.seed, self.total, &peer), res: "ok".into() });
                                     }
                                 }
                             }
@@ -719,7 +727,7 @@ impl Prop for NotifProp {
             if let Some(behaviour) = case["rogue"].as_str() {
                 let g = n + 1;
                 node::CURRENT_NODE.with(|c| c.set(g));
-                let cfg = base_config(&handle, seed, g, &knobs).with_user_protocol(Box::new(RogueNotif { behaviour: behaviour.to_string(), max_size, handle: handle.clone(), byte_budget: (case["net"]["max_chunk"].as_u64().unwrap_or(65536) as usize).saturating_mul(200_000) })).build();
+                let cfg = base_config(&handle, seed, g, &knobs).with_user_protocol(Box::new(RogueNotif { behaviour: behaviour.to_string(), max_size, handle: handle.clone(), byte_budget: (case["net"]["max_chunk"].as_u64().unwrap_or(65536) as usize).saturating_mul(200_000), log: log.clone(), seed, total, me: g })).build();
                 match Litep2p::new(cfg) {
                     Ok(mut l) => {
                         handle.spawn(g, "rogue-event-loop", async move { while l.next_event().await.is_some() {} });
@@ -875,7 +883,7 @@ impl Prop for NotifProp {
                     let s = f["at_ms"].as_u64().unwrap_or(0) * 1_000_000;
                     (f["node"].as_u64().unwrap_or(0) as usize, s, s + f["heal_after_ms"].as_u64().unwrap_or(0) * 1_000_000)
                 }).collect();
-                let ctx = Ctx { log: &log, dead: &dead, table: &table, n, end_ns, t1_ns: t1 * 1_000_000, t2_ns: t2 * 1_000_000, max_size, should_dial: &should_dial, auto_accept: &auto_accept, freezes: &freezes };
+                let ctx = Ctx { log: &log, dead: &dead, table: &table, n, end_ns, t1_ns: t1 * 1_000_000, t2_ns: t2 * 1_000_000, max_size, should_dial: &should_dial, auto_accept: &auto_accept, freezes: &freezes, rogue: if case["rogue"].is_string() { Some(n + 1) } else { None } };
                 let vs = ctx.check();
                 if let Some((class, detail)) = vs.into_iter().find(|(c, _)| c.starts_with(&my_prefix)) {
                     h.violation(class, detail);
@@ -905,6 +913,8 @@ struct Ctx<'a> {
     auto_accept: &'a [bool],
     /// process stalls of the plan: (node, start ns, end ns)
     freezes: &'a [(usize, u64, u64)],
+    /// index of the rogue notification peer, if the run has one
+    rogue: Option<usize>,
 }
 
 impl<'a> Ctx<'a> {
@@ -969,6 +979,12 @@ impl<'a> Ctx<'a> {
                     open_credit += 1;
                 }
                 K::CValidate { peer, accept } if *peer == j => {
+                    // Answers are matched to requests by peer only: an acceptance given (late) for
+                    // a request the user saw earlier may be applied by the protocol to a newer
+                    // request the user has not read yet. Every acceptance is therefore a credit.
+                    if *accept && !pending_validation {
+                        accept_credit += 1;
+                    }
                     if pending_validation {
                         pending_validation = false;
                         if *accept {
@@ -1034,13 +1050,16 @@ impl<'a> Ctx<'a> {
                         // connection to the peer has ended, the user's own open request is answered
                         // (no connection / dial failure) by the protocol task before the per-stream
                         // task has reported the closure of the stream that died with the connection.
-                        let conn_gone = matches!(err.as_str(), "DialFailure" | "NoConnection")
-                            && open_credit > 0
-                            && (self.conns_between(i, j).iter().all(|c| c.4 > r.t || c.3.is_some_and(|d| d <= r.t)) || {
-                                // ... or the node has been told so (a new connection may already be on its way)
-                                let pos = evs.iter().position(|q| std::ptr::eq(*q, *r)).unwrap_or(0);
-                                evs[..pos].iter().rev().find(|q| matches!(&q.k, K::AEst { peer } | K::AClosed { peer } if *peer == j)).is_some_and(|q| matches!(q.k, K::AClosed { .. }))
-                            });
+                        // structural signature: the failure answers an outstanding request of the
+                        // user's, says "no connection", the node has been told that a connection
+                        // to the peer closed, and the very next thing the user learns about the
+                        // stream is its closure (the closure report was merely overtaken)
+                        let conn_gone = matches!(err.as_str(), "DialFailure" | "NoConnection") && open_credit > 0 && {
+                            let pos = evs.iter().position(|q| std::ptr::eq(*q, *r)).unwrap_or(0);
+                            let next_is_closed = evs[pos + 1..].iter().find(|q| matches!(&q.k, K::EOpened { peer, .. } | K::EClosed { peer } if *peer == j)).is_some_and(|q| matches!(q.k, K::EClosed { .. }));
+                            let told_closed = evs.iter().any(|q| matches!(&q.k, K::AClosed { peer } if *peer == j));
+                            next_is_closed && told_closed
+                        };
                         let class = if conn_gone { "c11:open-failure-while-open:request-answered-before-closure-reported" } else { "c11:open-failure-while-open" };
                         v.push((class.into(), format!("node {i}: NotificationStreamOpenFailure({err}) for n{j} at {} while the stream is open", ts(r.t))));
                     }
@@ -1118,6 +1137,18 @@ impl<'a> Ctx<'a> {
         let ts = |t: u64| format!("{:.3}s", t as f64 / 1e9);
         // accepted by the sender: (sender, receiver, period, mode) -> count of Ok sends
         let mut last: BTreeMap<(usize, u8), (u32, u32)> = BTreeMap::new();
+        // Recorded finding (KNOWN_FINDINGS.jsonl): the receiving user reads late; the stream of the
+        // sender's period was already reported closed to it, the notifications still queued for
+        // the handle are discarded while the peer is "not open" and the rest of them is delivered
+        // once the next stream to the peer is reported open. Shape: the first notification the
+        // user gets of a sender period has seq > 0 and the user has read a Closed for that peer
+        // after the sender had started sending in that period.
+        let leftover = |sender: usize, period: u32, r: &Rec| -> bool {
+            let first_send = self.log.iter().filter(|q| q.node == sender && matches!(&q.k, K::CSend { peer: p, period: pe, .. } if *p == i && *pe == period)).map(|q| q.t).min();
+            let Some(t0) = first_send else { return false };
+            let pos = evs.iter().position(|q| std::ptr::eq(*q, r)).unwrap_or(0);
+            evs[..pos].iter().any(|q| q.t >= t0 && matches!(&q.k, K::EClosed { peer: p } if *p == sender))
+        };
         for r in evs.iter() {
             if let K::ERecv { peer, period, mode, seq, len, ok } = &r.k {
                 if !*ok {
@@ -1140,7 +1171,8 @@ impl<'a> Ctx<'a> {
                 match last.get(&(*peer, *mode)).cloned() {
                     None => {
                         if *seq != 0 {
-                            v.push(("c12:gap".into(), format!("node {i}: first notification delivered from n{peer} in its period {period} (mode {mode}) has seq {seq}, seq 0.. were skipped (at {})", ts(r.t))));
+                            let class = if leftover(*peer, *period, r) { "c12:gap:leftover-of-closed-stream-delivered-after-reopen" } else { "c12:gap" };
+                            v.push((class.into(), format!("node {i}: first notification delivered from n{peer} in its period {period} (mode {mode}) has seq {seq}, seq 0.. were skipped (at {})", ts(r.t))));
                         }
                     }
                     Some((lp, ls)) => {
@@ -1153,7 +1185,8 @@ impl<'a> Ctx<'a> {
                                 v.push(("c12:gap".into(), format!("node {i}: n{peer} period {period} mode {mode}: seq {seq} delivered at {} right after seq {ls}: {} notification(s) skipped", ts(r.t), seq - ls - 1)));
                             }
                         } else if *seq != 0 {
-                            v.push(("c12:gap".into(), format!("node {i}: first notification delivered from n{peer} in its period {period} (mode {mode}) has seq {seq} (at {})", ts(r.t))));
+                            let class = if leftover(*peer, *period, r) { "c12:gap:leftover-of-closed-stream-delivered-after-reopen" } else { "c12:gap" };
+                            v.push((class.into(), format!("node {i}: first notification delivered from n{peer} in its period {period} (mode {mode}) has seq {seq} (at {})", ts(r.t))));
                         }
                     }
                 }
